@@ -199,6 +199,10 @@ fn hash_of(alg: HashAlgorithm, d: &[u8]) -> Vec<u8> {
     match alg {
         HashAlgorithm::Sha256 => Sha256::digest(d).to_vec(),
         HashAlgorithm::Sha512 => Sha512::digest(d).to_vec(),
+        HashAlgorithm::Sha224 => sha2::Sha224::digest(d).to_vec(),
+        HashAlgorithm::Sha384 => sha2::Sha384::digest(d).to_vec(),
+        HashAlgorithm::Sha3_256 => sha3::Sha3_256::digest(d).to_vec(),
+        HashAlgorithm::Sha3_512 => sha3::Sha3_512::digest(d).to_vec(),
         _ => Vec::new(),
     }
 }
@@ -389,7 +393,15 @@ impl Env<'_> {
 }
 
 fn hash_name(h: HashAlgorithm) -> &'static str {
-    match h { HashAlgorithm::Sha256 => "sha256", HashAlgorithm::Sha512 => "sha512", _ => "other" }
+    match h {
+        HashAlgorithm::Sha256 => "sha256",
+        HashAlgorithm::Sha512 => "sha512",
+        HashAlgorithm::Sha224 => "sha224",
+        HashAlgorithm::Sha384 => "sha384",
+        HashAlgorithm::Sha3_256 => "sha3-256",
+        HashAlgorithm::Sha3_512 => "sha3-512",
+        _ => "other",
+    }
 }
 
 fn low_level_config(rng: &mut ChaCha8Rng, key: &impl SigningKey, typ: SignatureType, hash: HashAlgorithm, with_issuer: bool) -> Result<SignatureConfig, String> {
@@ -1168,6 +1180,41 @@ pub fn run(ctx: &mut Ctx) {
                 run_detached(&mut env, key, hash, &s, &mut rng, true);
             }
             env.ctx.stat("gen:exhaustive5:cleartext");
+        }
+    }
+
+    // ---- every key algorithm x every hash the library signs with: the digest is shorter than,
+    //      equal to and longer than the group / field order (DSA q = 256, P-384, P-521, RSA),
+    //      through detached, builder and cleartext interfaces ---------------------------------
+    {
+        let extra: Vec<TestKey> = vec![
+            TestKey::new("dsa2048-v4", keys::dsa2048_ecdh(&mut krng)),
+            TestKey::new("ecdsa-p256-v4", keys::ecdsa_p256_ecdh(&mut krng)),
+            TestKey::new("ecdsa-p384-v4", keys::ecdsa_p384_ecdh(&mut krng)),
+            TestKey::new("ecdsa-p521-v4", keys::ecdsa_p521_ecdh(&mut krng)),
+            TestKey::new("eddsa-legacy-v4", keys::eddsa_legacy_ecdh(&mut krng)),
+        ];
+        let all_hashes = [HashAlgorithm::Sha224, HashAlgorithm::Sha256, HashAlgorithm::Sha384, HashAlgorithm::Sha512, HashAlgorithm::Sha3_256, HashAlgorithm::Sha3_512];
+        let texts = ["alg sweep\r\nsecond line\n", "x"];
+        for key in extra.iter().chain([&rsa, &ed4]) {
+            for (hi, h) in all_hashes.iter().enumerate() {
+                // the library refuses (documented) digests shorter than the curve / EdDSA security level
+                let bits = match h { HashAlgorithm::Sha224 => 224, HashAlgorithm::Sha256 | HashAlgorithm::Sha3_256 => 256, HashAlgorithm::Sha384 => 384, _ => 512 };
+                let min_bits = match key.name { "ecdsa-p256-v4" | "eddsa-legacy-v4" | "ed25519-v4" => 256, "ecdsa-p384-v4" => 384, "ecdsa-p521-v4" => 512, _ => 0 };
+                if bits < min_bits {
+                    env.ctx.stat("gen:alg_hash_sweep:refused_config_skipped");
+                    continue;
+                }
+                for (ti, t) in texts.iter().enumerate() {
+                    if ti == 1 && !thorough && hi % 2 == 1 {
+                        continue;
+                    }
+                    run_detached(&mut env, key, *h, t.as_bytes(), &mut rng, false);
+                    run_builder(&mut env, &[(key, *h)], ti == 0, false, true, t.as_bytes(), &mut rng);
+                    run_cleartext(&mut env, &[(key, *h)], (hi % 3) as u8, t, &mut rng);
+                    env.ctx.stat(&format!("gen:alg_hash_sweep:{}", key.name));
+                }
+            }
         }
     }
 
